@@ -68,6 +68,7 @@ def run(facts, rep):
     covers_last = []
     narrowed = []
     unknown_guard = []
+    unread = []
     for fn, r, below in sites:
         short = fn[len(H):]
         inst = 'LLLHNFCalc::%s|normalises the pivot of row %s' % (short, r)
@@ -80,6 +81,8 @@ def run(facts, rep):
         if m:
             cands = [a[int(m.group(1)) - 2] for (_, a) in calls_to.get(fn, []) if len(a) >= int(m.group(1)) - 1]
         for c in cands:
+            if not (re.match(r'SubWithOverflow\(nrows\(&?\*?arg1\.data\), 1\)\.0$', c) or c == 'next(IT).Some.0' or re.match(r'(arg\d|\d+|\*?arg1\.data\.step|SubWithOverflow\(\*?arg1\.data\.step, \d+\)\.0)$', c)):
+                unread.append((short, c))
             if re.match(r'SubWithOverflow\(nrows\(&?\*?arg1\.data\), 1\)\.0$', c) or c == 'next(IT).Some.0':
                 # the guards on the number of rows under which this site is reached must admit every m >= 1
                 gs = set()
@@ -120,6 +123,8 @@ def run(facts, rep):
                       where='yui-matrix/src/dense/lll.rs')
     elif unknown_guard:
         rep.indet('E26: the normalisation of the last row is guarded by a condition outside the recognised fragment: %s' % (unknown_guard[0],))
+    elif unread:
+        rep.indet('E26: a normalisation site is called with a row outside the recognised fragment: %s' % (unread[0],))
     else:
         rep.violation('E26.V2-last-row-normalised', inst,
                       'the pivot of a row is normalised only in %s, where the row index is asserted strictly below another row index; the last working row m-1 - the first row of H after the reversal in result() - is never multiplied by its normalising unit (e.g. lll_hnf([[-5]]) = [[-5]], lll_hnf([[0,1],[-1,0]]) = [[-1,0],[0,1]])' %
